@@ -81,11 +81,12 @@ def tla_zone(z):
     return '[name |-> "%s", init |-> %d, tr |-> <<%s>>, exact |-> <<%s>>]' % (z["name"], z["init"], tr, ex)
 
 
-def wrapper(zones, probes, plain):
+def wrapper(zones, probes, plain, series=()):
     """module text: Zones, Probes (zone idx, transition idx), Plain (zone idx, utc instant)"""
     zs = ",\n  ".join(tla_zone(z) for z in zones)
     ps = ", ".join("<<%d, %d>>" % p for p in probes) or ""
     pl = ", ".join("<<%d, %d>>" % p for p in plain) or ""
+    sr = ", ".join("<<%d, %d>>" % p for p in series) or ""
     ds = ", ".join(str(d) for d in DELTAS)
     return """---- MODULE MCTZReal ----
 EXTENDS TimeZone, TLC, Json
@@ -94,6 +95,7 @@ ZonesT == <<
 >>
 Probes == <<%s>>
 Plain == <<%s>>
+Series == <<%s>>
 Deltas == {%s}
 VARIABLES zi, local, kind
 vars == <<zi, local, kind>>
@@ -112,14 +114,23 @@ Init ==
           /\\ zi = Plain[p][1]
           /\\ local = Plain[p][2]
           /\\ kind = "plain"
+    \\/ \\E p \\in 1..Len(Series) :
+          /\\ zi = Series[p][1]
+          /\\ local = ZonesT[zi].tr[Series[p][2]][1]      \\* the UTC instant of the transition
+          /\\ kind = "series"
 Next == UNCHANGED vars
 Spec == Init /\\ [][Next]_vars
 Judged == \\A k \\in ErasOf(Z, local) : k >= 2 /\\ ZonesT[zi].exact[k]
 AtMostTwo == Cardinality(ValidInstants(Z, local)) <= 2
-EmitInv == PrintT("EMIT " \\o ToJson([zone |-> ZonesT[zi].name, local |-> local, kind |-> kind,
+(* a uniform half-hourly UTC series across the transition, rendered in the zone *)
+SeriesOf(t) == [i \\in 1..24 |-> <<t - 21600 + i * 1800, Render(Z, t - 21600 + i * 1800)>>]
+EmitInv ==
+    IF kind = "series"
+    THEN PrintT("EMIT " \\o ToJson([zone |-> ZonesT[zi].name, kind |-> kind, series |-> SeriesOf(local)]))
+    ELSE PrintT("EMIT " \\o ToJson([zone |-> ZonesT[zi].name, local |-> local, kind |-> kind,
                                       valid |-> ValidInstants(Z, local), judged |-> Judged]))
 ====
-""" % (zs, ps, pl, ds)
+""" % (zs, ps, pl, sr, ds)
 
 
 def local_text(local):
@@ -133,7 +144,58 @@ def stored_epoch(zone_name, text):
     return rows[0][0]
 
 
-def run_batch(chk, zones, n_trans, n_plain, rng, label):
+def stored_epochs(zone_name, texts):
+    """ONE call for a whole file of rows, as load does"""
+    import pytz
+    import spowtd.load as load_mod
+    rows = list(load_mod.generate_timestamped_rows([[t, "1.0"] for t in texts], pytz.timezone(zone_name)))
+    return [r[0] for r in rows]
+
+
+def cli_series(chk, obj, wd):
+    """a tiny dataset whose rainfall / ET begin before a forward transition and whose
+    water level begins after it, loaded through the CLI entry point"""
+    import os
+    import sqlite3
+    from . import present as P
+    ser = obj["series"]
+    zone = obj["zone"]
+    tag = "tz%d" % abs(hash(zone + str(ser[0][0])) % 10**8)
+    paths = {}
+    for key, rows in (("p", ser[:-1]), ("e", ser), ("z", ser[14:-2])):
+        path = os.path.join(wd, "%s_%s.txt" % (tag, key))
+        with open(path, "w") as f:
+            f.write("datetime,value\n")
+            for i, (e, loc) in enumerate(rows):
+                f.write("%s,%s\n" % (local_text(loc), float(i % 5)))
+        paths[key] = path
+    db = os.path.join(wd, tag + ".sqlite3")
+    o = P.cli(["load", db, "-p", paths["p"], "-e", paths["e"], "-z", paths["z"], "--timezone", zone])
+    chk.count("evaluations")
+    rp = {"kind": "tz_series", "zone": zone, "series": ser}
+    if not o.ok:
+        chk.violation("load of a uniform half-hourly series across a transition of %s failed: %s" % (zone, o.describe()), rp)
+        return
+    conn = sqlite3.connect(db)
+    try:
+        for table, rows in (("rainfall_intensity_staging", ser[:-1]), ("evapotranspiration_staging", ser),
+                            ("water_level_staging", ser[14:-2])):
+            got = [r[0] for r in conn.execute("SELECT epoch FROM %s ORDER BY epoch" % table)]
+            if got != [e for e, _ in rows]:
+                bad = [(local_text(l), e, g) for (e, l), g in zip(rows, got) if e != g][:3]
+                chk.violation("%s read in %s: stored instants differ from the instants that render to the "
+                              "texts (text, expected, stored): %s" % (table, zone, bad), rp)
+                return
+    finally:
+        conn.close()
+        for p in list(paths.values()) + [db]:
+            if os.path.exists(p):
+                os.unlink(p)
+    chk.count("traces_validated_against_impl")
+    chk.count("cli_series_loaded")
+
+
+def run_batch(chk, zones, n_trans, n_plain, rng, label, n_series=2):
     probes, plain = [], []
     for zi, z in enumerate(zones, 1):
         ks = [k for k in range(3, len(z["tr"]) + 1)
@@ -146,15 +208,51 @@ def run_batch(chk, zones, n_trans, n_plain, rng, label):
         for _ in range(n_plain):
             e = rng.randrange(lo, LIM)
             plain.append((zi, e))          # used as a LOCAL time
+    series = []
+    for zi, z in enumerate(zones, 1):
+        # forward jumps (no repeated local times) between whole-minute offsets
+        ks = [k for k in range(3, len(z["tr"]) + 1)
+              if abs(z["tr"][k - 1][0]) < LIM and z["tr"][k - 1][1] > z["tr"][k - 2][1]
+              and z["tr"][k - 1][2] and z["tr"][k - 2][2]
+              and z["tr"][k - 1][0] - z["tr"][k - 2][0] > 40000
+              and (k == len(z["tr"]) or z["tr"][k][0] - z["tr"][k - 1][0] > 40000)]
+        rng.shuffle(ks)
+        series += [(zi, k) for k in ks[:n_series]]
     res = tlc.run("MCTZReal", "SPECIFICATION Spec\nINVARIANT AtMostTwo\nINVARIANT EmitInv\nCHECK_DEADLOCK FALSE\n",
-                  workers=8, wrapper=("MCTZReal", wrapper(zones, probes, plain)), timeout=3000,
+                  workers=8, wrapper=("MCTZReal", wrapper(zones, probes, plain, series)), timeout=3000,
                   invariants=["AtMostTwo"])
     chk.add_tlc(res, label)
     if res.get("violated"):
         chk.violation("TLC: more than two valid instants for a local time: " + res["error"][:500],
                       {"kind": "tlc", "error": res["error"][:3000]})
         return
+    from .common import workdir, rm
+    wd = workdir("tz")
+    try:
+        for obj in res["emits"]:
+            if obj["kind"] == "series":
+                cli_series(chk, obj, wd)
+    finally:
+        rm(wd)
+    # whole-file conversion: all probes of a zone in ONE call, in shuffled order
+    by_zone = {}
     for obj in res["emits"]:
+        if obj["kind"] != "series" and obj["valid"]:
+            by_zone.setdefault(obj["zone"], []).append(obj)
+    file_epoch = {}
+    for zone, objs in by_zone.items():
+        rng.shuffle(objs)
+        try:
+            eps = stored_epochs(zone, [local_text(o["local"]) for o in objs])
+        except Exception as e:  # noqa
+            chk.violation("timestamp conversion of a %d-row file raised for %s: %r" % (len(objs), zone, e),
+                          {"kind": "tz_file", "zone": zone})
+            continue
+        for o, ep in zip(objs, eps):
+            file_epoch[(zone, o["local"])] = ep
+    for obj in res["emits"]:
+        if obj["kind"] == "series":
+            continue
         chk.count("evaluations")
         if not obj["valid"]:
             chk.count("nonexistent_local_times_skipped")
@@ -165,6 +263,12 @@ def run_batch(chk, zones, n_trans, n_plain, rng, label):
         except Exception as e:  # noqa
             chk.violation("timestamp conversion raised for %s %s: %r" % (obj["zone"], text, e),
                           {"kind": "tz", "zone": obj["zone"], "text": text, "valid": obj["valid"]})
+            continue
+        ep2 = file_epoch.get((obj["zone"], obj["local"]), ep)
+        if ep2 != ep and obj["judged"]:
+            chk.violation("%s in %s is stored as %d when converted alone but as %d inside a file of rows; valid: %s" % (
+                text, obj["zone"], ep, ep2, obj["valid"]),
+                {"kind": "tz_file", "zone": obj["zone"], "text": text, "valid": obj["valid"], "alone": ep, "in_file": ep2})
             continue
         chk.count("traces_validated_against_impl")
         ok = ep in obj["valid"]
